@@ -104,7 +104,7 @@ func (w *world1) genDatagram(t *rapid.T) dgram {
 		r := ref.Report{ShortID: id, Timeslot: drawSlot(t, s.now, s.M.Offset, "slot"), Power: drawPower(t, capacity, "power")}
 		return r, key
 	}
-	switch c := rapid.IntRange(0, 13).Draw(t, "dgClass"); c {
+	switch c := rapid.IntRange(0, 14).Draw(t, "dgClass"); c {
 	case 0: // random bytes
 		n := rapid.IntRange(0, 200).Draw(t, "len")
 		return dgram{b: rapid.SliceOfN(rapid.Byte(), n, n).Draw(t, "bytes"), class: "random-bytes"}
@@ -200,6 +200,24 @@ func (w *world1) genDatagram(t *rapid.T) dgram {
 		}
 		r.Sig = sig
 		return dgram{b: r.Encode(), class: "well-formed-alt-signature"}
+	case 13: // a valid report whose signature ends in zero bytes, sent without them:
+		// "too short", although padding it with zeros would give a valid report
+		r, key := wellFormed()
+		sig, ok := ref.SignZeroTail(key, r.SigningBytes())
+		if !ok {
+			sig = ref.Sign(key, r.SigningBytes())
+		}
+		r.Sig = sig
+		b := r.Encode()
+		n := len(b)
+		for n > 0 && b[n-1] == 0 {
+			n--
+		}
+		if n == len(b) {
+			return dgram{b: b, class: "well-formed"}
+		}
+		keep := rapid.IntRange(n, len(b)-1).Draw(t, "keepZeros")
+		return dgram{b: b[:keep], class: "truncated-zero-tail"}
 	default: // valid report with trailing bytes (judged by its leading 80 bytes)
 		r, key := wellFormed()
 		r.Sig = ref.Sign(key, r.SigningBytes())
